@@ -9,6 +9,7 @@ package main
 
 import (
 	"fmt"
+	"os"
 	"path/filepath"
 	"strings"
 
@@ -184,6 +185,69 @@ func runFaultCase(self, work string, m *common.Model, c faultCase) (faultOutcome
 		}
 		o, f, t, e := canonModel(ans)
 		if e != nil {
+			fo.model = ans
+		} else {
+			fo.model = o + " " + f + " | " + t
+		}
+	}
+	return fo, nil
+}
+
+// runFsizeCase: a genuine partial write.  The helper runs with RLIMIT_FSIZE = limit and
+// SIGXFSZ ignored, so the write that crosses the limit stores a prefix and then fails with
+// EFBIG.  Transform (growing): limit = len(old)+k hits the tail write; Write: limit = k.
+func runFsizeCase(self, work string, m *common.Model, call, old, nw string, k int) (faultOutcome, error) {
+	var fo faultOutcome
+	path := filepath.Join(work, "fsize-file")
+	setFile(path, old)
+	defer os.Remove(path)
+	limit := k
+	sys := "write"
+	if call == "transform" {
+		limit = len(common.UnHex(old)) + k
+		sys = "pwrite64"
+	}
+	result, evs, raw, err := straceCall(self, work, call, path, nw, "", []string{"GOMAXPROCS=1", fmt.Sprintf("LF_FSIZE=%d", limit)})
+	if err != nil {
+		return fo, err
+	}
+	if result == "nolimit" {
+		return fo, fmt.Errorf("RLIMIT_FSIZE cannot be set here")
+	}
+	fo.raw = raw
+	for _, e := range evs {
+		if e.Err && (e.Name == "pwrite64" || e.Name == "write") {
+			fo.hit = true
+		}
+	}
+	final := getFile(path)
+	tr, err := canonTrace(evs)
+	if err != nil {
+		return fo, err
+	}
+	fo.impl = result + " " + final + " | " + tr
+	isPrefix := func(p, whole string) bool { return p == "-" || (whole != "-" && strings.HasPrefix(whole, p)) }
+	switch {
+	case result != "ok" && result != "err":
+		fo.direct = "helper-crashed"
+	case call == "transform" && result == "err" && final != old:
+		fo.direct = "error-return-but-contents-changed"
+	case result == "ok" && final != nw:
+		fo.direct = "nil-return-but-contents-not-new"
+	case call != "transform" && result == "err" && final != old && !isPrefix(final, nw):
+		fo.direct = "failed-write-left-neither-old-nor-a-prefix-of-new"
+	case fo.hit && result == "ok":
+		fo.direct = "write-failure-swallowed"
+	}
+	if m != nil {
+		idx := modelIndex(m, call, old, nw, sys, 1, 0)
+		var ans string
+		if idx < 0 || !fo.hit {
+			ans = m.Ask1(fmt.Sprintf("ops %s %s %s", call, nw, old))
+		} else {
+			ans = m.Ask1(fmt.Sprintf("faultcall %s %s %s %d short %d", call, nw, old, idx, k))
+		}
+		if o, f, t, e := canonModel(ans); e != nil {
 			fo.model = ans
 		} else {
 			fo.model = o + " " + f + " | " + t
